@@ -5,7 +5,7 @@ NOT_APPLICABLE = {("C%02d" % i): PENDING for i in range(1, 21)}
 
 META = {
     "C01": {
-        "text": 'PARTIAL proof. Coq theorems (all Hamiltonian tables, cutoffs, strings, betas; no bounds). HEADLINE (unconditional, C01_ising_model_pipeline_stationary): for every Ising model without longitudinal field whose edges name existing spins, every beta > 0 and cutoff, the OWN timestep pipeline of the model (Metropolis diagonal update, cluster update, free-spin refresh - the term proved equal to the model of QmcIsingGraph::timestep and replayed against the implementation on raw RNG words) leaves the SSE weight stationary on the space of ALL consistent legal configurations; the cluster decomposition is proved to return only labellings that pass the validators (C09_decomposition_is_valid), so no validation wrapper is needed any more. Earlier form with the validation wrapper (kept): where the validators pass the validated cluster stage is the cluster update of the model, and the validity test is the one evaluated in Coq on every replayed configuration. Kernel identification: the WHOLE Metropolis diagonal update, as a program on complete configurations (p = 0 state, operator string) — the very term replayed against the implementation on raw RNG words — leaves the SSE weight beta^n (L-n)!/L! prod w stationary on the space of ALL consistent legal configurations (enumeration proved complete): sum_x W(x) E_{update(x)}[f] = sum_x W(x) f(x) for every observable f, and pointwise sum_x W(x) P(x->y) = W(y). Ingredients, all proved: the sweep program equals the composition of single-slot kernels; each single-slot kernel is in detailed balance with W between any two configurations, keeps the space and has total mass 1 (zero-weight operators have probability zero entry by entry); stationarity composes. The whole default pipeline diagonal update -> cluster update (one fair bit per cluster, involution, weight kept) -> free-spin refresh is proved stationary as ONE program for h = 0 on every space closed under the moves on which the decomposition passes the C09 validators; the hypotheses are decidable and hold on a fully enumerated example space (flow equation evaluated at all 30 configurations); the pipeline is proved equal to the model of QmcIsingGraph::timestep; the same with a longitudinal field (weighted cluster update: clusters holding a field operator have probability 0; conditions asked only of flip vectors of non-zero probability, decidable, checked on an example space with a field term: 42 configurations). Also: matrix elements are those of H; clusters with a field operator flip with probability 0. NOT proved: ergodicity (hence convergence), the estimator identities, termination of the decomposition within the fuel of the model, that the per-flip conditions of the weighted cluster update hold on every space (hypotheses, decidable). These are decided by long runs of the real sampler against exact diagonalisation (energy, magnetisations, correlations, operator counts per bond; h = 0, +, -).',
+        "text": 'PARTIAL proof. Coq theorems (all Hamiltonian tables, cutoffs, strings, betas; no bounds). HEADLINE (unconditional, C01_ising_model_pipeline_stationary): for every Ising model without longitudinal field whose edges name existing spins, every beta > 0 and cutoff, the OWN timestep pipeline of the model (Metropolis diagonal update, cluster update, free-spin refresh - the term proved equal to the model of QmcIsingGraph::timestep and replayed against the implementation on raw RNG words) leaves the SSE weight stationary on the space of ALL consistent legal configurations; the cluster decomposition is proved to return only labellings that pass the validators (C09_decomposition_is_valid), so no validation wrapper is needed any more. Earlier form with the validation wrapper (kept): where the validators pass the validated cluster stage is the cluster update of the model, and the validity test is the one evaluated in Coq on every replayed configuration. Kernel identification: the WHOLE Metropolis diagonal update, as a program on complete configurations (p = 0 state, operator string) — the very term replayed against the implementation on raw RNG words — leaves the SSE weight beta^n (L-n)!/L! prod w stationary on the space of ALL consistent legal configurations (enumeration proved complete): sum_x W(x) E_{update(x)}[f] = sum_x W(x) f(x) for every observable f, and pointwise sum_x W(x) P(x->y) = W(y). Ingredients, all proved: the sweep program equals the composition of single-slot kernels; each single-slot kernel is in detailed balance with W between any two configurations, keeps the space and has total mass 1 (zero-weight operators have probability zero entry by entry); stationarity composes. The whole default pipeline diagonal update -> cluster update (one fair bit per cluster, involution, weight kept) -> free-spin refresh is proved stationary as ONE program for h = 0 on every space closed under the moves on which the decomposition passes the C09 validators; the hypotheses are decidable and hold on a fully enumerated example space (flow equation evaluated at all 30 configurations); the pipeline is proved equal to the model of QmcIsingGraph::timestep; the same with a longitudinal field (weighted cluster update: clusters holding a field operator have probability 0; conditions asked only of flip vectors of non-zero probability, decidable, checked on an example space with a field term: 42 configurations). Also: matrix elements are those of H; clusters with a field operator flip with probability 0. NOT proved: ergodicity (hence convergence), the estimator identities, that the per-flip conditions of the weighted cluster update hold on every space (hypotheses, decidable). These are decided by long runs of the real sampler against exact diagonalisation (energy, magnetisations, correlations, operator counts per bond; h = 0, +, -).',
         "note": "Trusted: Coq kernel + vm_compute; model transcriptions (validated by raw-tape replay of every public call); f64 exact-diagonalisation oracle with 6 sigma + 0.02 tolerance and a confirmation run. Stationarity of the model's update programs is a theorem; ergodicity / convergence itself is oracle-tested, not proved.",
         "technique": 'Coq proof (expectation monad law, detailed balance of every single-slot kernel on the complete configuration space, sweep = composition of slot kernels, stationarity of the whole diagonal update and of the whole h = 0 pipeline) + raw-tape replay of whole timesteps + exact-diagonalisation oracle',
         "design_ref": "DESIGN.md §3 C01",
@@ -107,8 +107,8 @@ META = {
         "design_ref": "DESIGN.md §3 C19",
     },
     "C09": {
-        "text": "Coq theorems for every operator string, labelling and flip outcome: the cluster flip leaves the skeleton (number, positions, bonds, variables, constant flags) unchanged; re-decomposing the result yields the identical decomposition; a cluster containing a zero-ratio (symmetry-breaking) operator has weight 0 and a zero-probability cluster is flipped with probability 0; for every labelling accepted by the validators the flip keeps the world line, the weight product and is an involution; as a kernel on complete configurations (one fair bit per cluster) the update reaches y from x exactly as likely as x from y, weights included (detailed balance), and equals the model's cluster_update for every observable. THE DECOMPOSITION ITSELF IS PROVED CORRECT (Proofs/DecomposeProofs.v, loop invariant over labelling / frontier / interior stack with 'effective labels'; periodic neighbours proved mutually inverse): every labelling the transcribed decomposition returns, for any operator string, passes both validators (partial correctness: a None result = fuel exhausted is outside the statement), so the model's own cluster update - no validation wrapper - is stationary for the SSE weight on the complete configuration space of every flip-symmetric table. The model transcribes the exploration order of cluster.rs, so that one raw RNG word maps to the same cluster in model and code; it is replayed bit-exactly on synthetic random strings and on equilibrium strings, and the validators are evaluated in Coq on every replayed decomposition.",
-        "note": 'Trusted: Coq kernel + vm_compute; Model/Cluster.v. That decompose yields only labellings accepted by links_ok / sides_ok is now a theorem (C09_decomposition_is_valid); termination within the fuel of the model is not proved (a None result would show as a mismatch in the correspondence). The unrestricted flip statement (arbitrary labelling) is refuted in Coq; the validators still run on every correspondence configuration as a cross-check.',
+        "text": "Coq theorems for every operator string, labelling and flip outcome: the cluster flip leaves the skeleton (number, positions, bonds, variables, constant flags) unchanged; re-decomposing the result yields the identical decomposition; a cluster containing a zero-ratio (symmetry-breaking) operator has weight 0 and a zero-probability cluster is flipped with probability 0; for every labelling accepted by the validators the flip keeps the world line, the weight product and is an involution; as a kernel on complete configurations (one fair bit per cluster) the update reaches y from x exactly as likely as x from y, weights included (detailed balance), and equals the model's cluster_update for every observable. THE DECOMPOSITION ITSELF IS PROVED CORRECT (Proofs/DecomposeProofs.v, loop invariant over labelling / frontier / interior stack with 'effective labels'; periodic neighbours proved mutually inverse): every labelling the transcribed decomposition returns, for any operator string, passes both validators, and the decomposition is TOTAL (Proofs/DecomposeTotal.v: with the fuel the model supplies it returns for every operator string; one potential W - open legs of non-edge operators, unlabelled sides, unlabelled operators - is lowered by every iteration of the inner loop together with the stack size and by every iteration of the outer loop together with the frontier size): C09_decomposition_correct is total correctness. So the model's own cluster update - no validation wrapper - is stationary for the SSE weight on the complete configuration space of every flip-symmetric table. The model transcribes the exploration order of cluster.rs, so that one raw RNG word maps to the same cluster in model and code; it is replayed bit-exactly on synthetic random strings and on equilibrium strings, and the validators are evaluated in Coq on every replayed decomposition.",
+        "note": 'Trusted: Coq kernel + vm_compute; Model/Cluster.v. That decompose yields only labellings accepted by links_ok / sides_ok is now a theorem (C09_decomposition_is_valid); termination within the fuel of the model is a theorem too (C09_decomposition_total). The unrestricted flip statement (arbitrary labelling) is refuted in Coq; the validators still run on every correspondence configuration as a cross-check.',
         "technique": "Coq proof (fold invariants, exact mass of the draw program) + raw-tape replay of the real cluster update incl. cluster numbering",
         "design_ref": "DESIGN.md §3 C09",
     },
